@@ -54,6 +54,8 @@ InKeyBPC == <<66, 80, 67>>           InKeyBits   == <<66, 105, 116, 115, 80, 101
 InKeyCS  == <<67, 83>>               InKeyColorSpace == <<67, 111, 108, 111, 114, 83, 112, 97, 99, 101>>
 InKeyF   == <<70>>                   InKeyFilter == <<70, 105, 108, 116, 101, 114>>
 InKeyIM  == <<73, 77>>               InKeyImageMask == <<73, 109, 97, 103, 101, 77, 97, 115, 107>>
+InKeyD   == <<68>>                   InKeyDecode == <<68, 101, 99, 111, 100, 101>>
+InKeyI   == <<73>>                   InKeyInterpolate == <<73, 110, 116, 101, 114, 112, 111, 108, 97, 116, 101>>
 CsG      == <<71>>                   CsDeviceGray == <<68, 101, 118, 105, 99, 101, 71, 114, 97, 121>>
 CsRGB    == <<82, 71, 66>>           CsDeviceRGB  == <<68, 101, 118, 105, 99, 101, 82, 71, 66>>
 CsCMYK   == <<67, 77, 89, 75>>       CsDeviceCMYK == <<68, 101, 118, 105, 99, 101, 67, 77, 89, 75>>
@@ -68,6 +70,8 @@ InlineInfo(d) ==
         w == get(InKeyW, InKeyWidth)     h == get(InKeyH, InKeyHeight)
         bpc == get(InKeyBPC, InKeyBits)  cs == get(InKeyCS, InKeyColorSpace)
         flt == get(InKeyF, InKeyFilter)  im == get(InKeyIM, InKeyImageMask)
+        \* optional entries that do not change the data length: Decode (2 numbers per component), Interpolate
+        dec == get(InKeyD, InKeyDecode)  ipl == get(InKeyI, InKeyInterpolate)
         mask == im = OBool(TRUE)
         no(why) == [ok |-> FALSE, len |-> 0, why |-> why]
         ncomp == IF mask THEN 1
@@ -77,7 +81,10 @@ InlineInfo(d) ==
                  ELSE IF cs.v \in {CsCMYK, CsDeviceCMYK} THEN 4
                  ELSE 0
         bits == IF mask /\ bpc = absent THEN 1 ELSE IF IntSmall(bpc) THEN IntVal(bpc) ELSE 0
-    IN IF "both" \in {w.k, h.k, bpc.k, cs.k, flt.k, im.k} THEN no("inline image entry given under both its names")
+    IN IF "both" \in {w.k, h.k, bpc.k, cs.k, flt.k, im.k, dec.k, ipl.k} THEN no("inline image entry given under both its names")
+       ELSE IF ipl # absent /\ ipl.k # "bool" THEN no("Interpolate is not a boolean")
+       ELSE IF dec # absent /\ ~(dec.k = "arr" /\ \A i \in 1..Len(dec.v) : dec.v[i].k \in {"int", "real"})
+            THEN no("Decode is not an array of numbers")
        ELSE IF flt # absent THEN no("filtered inline image: data length is not determined by the entries")
        ELSE IF im # absent /\ im.k # "bool" THEN no("ImageMask is not a boolean")
        ELSE IF ~(IntSmall(w) /\ IntSmall(h)) THEN no("inline image without integer Width and Height")
@@ -85,6 +92,7 @@ InlineInfo(d) ==
        ELSE IF mask /\ (cs # absent \/ bits # 1) THEN no("image mask with a colour space or more than one bit")
        ELSE IF ncomp = 0 THEN no("inline image colour space is not DeviceGray/RGB/CMYK (G, RGB, CMYK)")
        ELSE IF bits \notin {1, 2, 4, 8, 16} THEN no("inline image BitsPerComponent is not 1, 2, 4, 8 or 16")
+       ELSE IF dec # absent /\ Len(dec.v) # 2 * ncomp THEN no("Decode array does not have two numbers per colour component")
        ELSE [ok |-> TRUE, len |-> IntVal(h) * ((IntVal(w) * ncomp * bits + 7) \div 8), why |-> ""]
 
 PushVal(a, v, s) ==
